@@ -130,3 +130,12 @@ def write_evidence(ctx, explanation, assumptions, known, new, extra=None, level=
     elif os.path.exists(vpath):
         os.remove(vpath)
     return path, vpath
+
+
+def obligation_floor(pid):
+    """minimum number of rule instances a complete run evaluates for this property (tools/gen_floors.py: 90 % of the count on the reference tree)"""
+    try:
+        with open(os.path.join(os.path.dirname(os.path.abspath(__file__)), "obligation_floors.json")) as f:
+            return int(json.load(f).get(pid, 1))
+    except (OSError, ValueError):
+        return 1
